@@ -533,9 +533,16 @@ func wireHandshake(run *vh.Run) {
 			what = "handshake result does not carry the peer's status"
 		}
 		if what != "" {
-			if negotiated == 31 || negotiated == 32 {
-				// known finding C18-legacy-handshake-0.3.x: protocol 0.3.1 compares no genesis hash, 0.3.1/0.3.2 compare the
-				// chain id with the genesis-era identifier instead of the one at the peer's height
+			// known finding C18-legacy-handshake-0.3.x, exactly its two shapes: protocol 0.3.1 compares no genesis hash; 0.3.1 and
+			// 0.3.2 accept the genesis-era chain identifier at any height. Anything else over these versions (0.3.2 with another
+			// genesis, another peer id, a chain id that is neither the node's at that height nor the genesis-era one) is unlisted.
+			gb, _ := genesisID.Bytes()
+			gok, gv, gpub, gmn, gmg, gcs := decodeChainID(gb)
+			genesisEra := ok && gok && v == gv && pub == gpub && mn == gmn && mg == gmg && cs == gcs
+			sameGenesis, samePeer := bytes.Equal(st.Genesis, genHash), st.Sender != nil && string(st.Sender.PeerID) == string(peerID)
+			listed := samePeer && kind == "status" &&
+				((negotiated == 31 && (compatible || genesisEra)) || (negotiated == 32 && sameGenesis && genesisEra))
+			if listed {
 				run.Count(fmt.Sprintf("known:C18-legacy-handshake-0.3.x:v0%d:%s", negotiated, strings.TrimPrefix(what, "handshake succeeded with a peer ")))
 				run.FailKnown(what+fmt.Sprintf(" (p2p protocol version 0.3.%d)", negotiated%10), "C18-legacy-handshake-0.3.x", replay)
 				continue
